@@ -4,8 +4,8 @@
      ps_ev_put      request to the unknown-resource handler that creates a resource
                     (coap_add_resource_lkd: dyn_resource_added when the resource is observable)
      ps_ev_del      coap_delete_resource -> coap_free_resource: notify (counter may be saved),
-                    resource_deleted (counter line, dynamic-resource record), observe_deleted for
-                    every subscriber
+                    observe_deleted for every subscriber, then resource_deleted (dynamic-resource
+                    record, counter line last)
      ps_ev_reg      coap_add_observer: existing (session, token) -> nothing; same session and
                     cache key -> old observer deleted (observe_deleted); new subscription
                     (observe_added, track_observe_value)
@@ -156,9 +156,9 @@ Section Events.
         let v := if notify then ps_next_observe (psr_observe r) else psr_observe r in
         ps_when (notify && psc_cnt c && (v mod psc_freq c =? 0))
                 (ps_cnt_track (psc_fuel c) name v)
+        (ps_untrack_all (psr_subs r)
         (ps_when (psc_dyn c || psc_cnt c)
                  (ps_res_deleted (psc_fuel c) (psc_dyn c) (psc_cnt c) name)
-        (ps_untrack_all (psr_subs r)
         (PsRet (Some (ps_remove name m, [])))))
     end.
 
